@@ -54,6 +54,9 @@ type IO struct {
 	Step int
 	At   time.Duration
 	Err  string
+	// CallAt is, for writes, the instant the Write call that carried these bytes was entered (At
+	// is when the send buffer took them, which is later when the buffer was full)
+	CallAt time.Duration
 }
 
 type chunk struct {
@@ -397,6 +400,7 @@ func (c *Conn) Write(b []byte) (int, error) {
 	n := c.link.net
 	d := c.out
 	total := 0
+	callAt := simrt.Now()
 	for {
 		n.mu.Lock()
 		now := time.Now()
@@ -405,11 +409,11 @@ func (c *Conn) Write(b []byte) (int, error) {
 			n.mu.Unlock()
 			return total, opErr("write", net.ErrClosed)
 		case d.rst || d.cutDone && d.Plan.CutKind != CutHole:
-			d.Writes = append(d.Writes, IO{Off: d.written, Err: "broken", Step: simrt.Step(), At: simrt.Now()})
+			d.Writes = append(d.Writes, IO{Off: d.written, Err: "broken", Step: simrt.Step(), At: simrt.Now(), CallAt: callAt})
 			n.mu.Unlock()
 			return total, opErr("write", syscall.EPIPE)
 		case d.readerGone && d.pipeBroken:
-			d.Writes = append(d.Writes, IO{Off: d.written, Err: "broken", Step: simrt.Step(), At: simrt.Now()})
+			d.Writes = append(d.Writes, IO{Off: d.written, Err: "broken", Step: simrt.Step(), At: simrt.Now(), CallAt: callAt})
 			n.mu.Unlock()
 			return total, opErr("write", syscall.EPIPE)
 		case !c.wdl.IsZero() && !now.Before(c.wdl):
@@ -417,7 +421,7 @@ func (c *Conn) Write(b []byte) (int, error) {
 			if total > 0 {
 				n.stat("short-write")
 			}
-			d.Writes = append(d.Writes, IO{Off: d.written - int64(total), N: total, Err: "timeout", Step: simrt.Step(), At: simrt.Now()})
+			d.Writes = append(d.Writes, IO{Off: d.written - int64(total), N: total, Err: "timeout", Step: simrt.Step(), At: simrt.Now(), CallAt: callAt})
 			n.mu.Unlock()
 			return total, opErr("write", &timeoutError{"write"})
 		}
@@ -428,7 +432,7 @@ func (c *Conn) Write(b []byte) (int, error) {
 			}
 			k := len(b) - total
 			d.tapAppend(b[total:])
-			d.Writes = append(d.Writes, IO{Off: d.written, N: k, Step: simrt.Step(), At: simrt.Now(), Err: "lost"})
+			d.Writes = append(d.Writes, IO{Off: d.written, N: k, Step: simrt.Step(), At: simrt.Now(), CallAt: callAt, Err: "lost"})
 			d.written += int64(k)
 			n.mu.Unlock()
 			return len(b), nil
@@ -447,7 +451,7 @@ func (c *Conn) Write(b []byte) (int, error) {
 		if k > 0 {
 			data := append([]byte(nil), b[total:total+k]...)
 			d.tapAppend(data)
-			d.Writes = append(d.Writes, IO{Off: d.written, N: k, Step: simrt.Step(), At: simrt.Now()})
+			d.Writes = append(d.Writes, IO{Off: d.written, N: k, Step: simrt.Step(), At: simrt.Now(), CallAt: callAt})
 			cutNow := false
 			if ca := d.Plan.CutAfter; ca >= 0 && !d.cutDone && d.written+int64(k) >= ca {
 				keep := int(ca - d.written)
